@@ -219,7 +219,7 @@ impl Sexa {
     fn valid(&self) -> bool {
         let f = |s: &String| plain_digits(s) && s.len() <= 2 && s.parse::<u32>().unwrap() <= 59;
         plain_digits(&self.d)
-            && self.d.len() <= 15
+            && self.d.len() <= 22
             && f(&self.m)
             && self.s.as_ref().is_none_or(f)
             && (self.frac.is_none() || self.s.is_some())
@@ -239,7 +239,8 @@ impl Sexa {
         }
     }
     fn parts(&self) -> (f64, f64, f64) {
-        let d: f64 = self.d.parse::<u64>().unwrap() as f64;
+        // (the field is one decimal number: correctly rounded also above 2^53)
+        let d: f64 = self.d.parse::<f64>().unwrap();
         let m: f64 = self.m.parse::<u32>().unwrap() as f64;
         let mut s: f64 = self.s.as_ref().map(|x| x.parse::<u32>().unwrap() as f64).unwrap_or(0.0);
         if let (Some(whole), Some(f)) = (&self.s, &self.frac) {
@@ -2306,6 +2307,29 @@ fn generate(ctx: &mut Ctx<C19>) {
                     ctx.case("sexagesimal-seconds-sweep", &c, true);
                 }
             }
+        }
+        // long first fields (above 2^53 a digit-by-digit sum rounds once per digit)
+        let mut st64 = 0x9E3779B97F4A7C15u64 ^ ctx.seed;
+        for k in 0..ctx.tier.pick(6_000u64, 60_000u64) {
+            idx += 1;
+            st64 = st64.wrapping_mul(6364136223846793005).wrapping_add(1442695040888963407);
+            if !ctx.mine(idx) {
+                continue;
+            }
+            let ndig = 16 + (st64 >> 60) as usize % 6;
+            let mut d = String::new();
+            let mut x = st64;
+            for i in 0..ndig {
+                x = x.wrapping_mul(6364136223846793005).wrapping_add(1442695040888963407);
+                let dg = ((x >> 33) % 10) as u8;
+                d.push((b'0' + if i == 0 && dg == 0 { 1 } else { dg }) as char);
+            }
+            let sx = Sexa { d, m: ["00", "30", "59"][(k % 3) as usize].into(), s: None, frac: None };
+            let e = single(Prim::Sexa(sx));
+            let (tag, wrap_deg) = [(Tag::None, false), (Tag::Degrees, false), (Tag::None, true)][((k / 3) % 3) as usize];
+            let e = if wrap_deg { single(Prim::Func(true, 0, Box::new(e), 0)) } else { e };
+            let c = mk(Body::Expr(e, 0), tag, Style::Plain, Pos::Root, Target::F64);
+            ctx.case("sexagesimal-long-first-field", &c, true);
         }
         ctx.subspace("seconds 0..59 x every fraction of 1-3 digits (quick: every third) x degrees / minutes rotation x {untagged, !degrees, !radians, deg(..)}", idx, ctx.tier.pick(false, true));
     }
